@@ -20,7 +20,8 @@ TRUSTED_BASE = [
     'Verus 0.2026.09.13 + Z3 (SMT back end); rustc front end',
     'extraction rules N1-N8/P1-P10 of DESIGN 2.2/2.3 preserve meaning (logged per run in coverage.rewrites)',
     'environment model units/prelude.vx, units/model_*.vx (external_body contracts): child poll may return anything and fire any waker; Mutex = mutual exclusion; parent waker does not re-enter',
-    'unsafe storage leaves (FutureArray/OutputArray/MaybeUninit/ManuallyDrop) and dependencies (slab, fixedbitset, smallvec, BTreeSet, futures-buffered) by assumed contracts',
+    'unsafe storage leaves (FutureArray/FutureVec pin projections, MaybeUninit/ManuallyDrop cells behind OutputArray/OutputVec) and dependencies (fixedbitset, smallvec, BTreeSet, futures-buffered) by assumed contracts; slab is NOT assumed: its functions are verified on the dependency source (unit dep_slab, cargo registry copy of the version in Cargo.lock) and called through verified glue (only Vec::push/with_capacity, mem::replace / IndexMut of one Vec element and reserve_exact are trusted there)',
+    'functions of /repo/src that no unit extracts (Debug impls, trait entry-point wrappers such as `[F; N]::join`, iterator-chain helpers ready_indexes/pending_indexes, IntoStream/IntoFuture plumbing, utils::channel) are outside the proof; a change to them only triggers the bounded witness enumeration (coverage.changes_outside_contract_coverage)',
     'machine arithmetic checked by Verus under stated range preconditions (N, len <= usize::MAX/2)',
 ]
 
@@ -61,6 +62,19 @@ WITNESS_FAMILIES = {
     'C17': _fams('merge'), 'C19': _fams('wait_until'),
     'C20': _fams('join', 'try_join', 'race', 'race_ok', 'merge', 'zip', 'future_group', 'stream_group'),
 }
+
+
+_REL = {}
+def relevant_files(prop):
+    """the files a property is anchored in (properties.jsonl `anchors.files`)"""
+    if not _REL:
+        try:
+            for ln in open(os.path.join(VERIF, 'properties.jsonl')):
+                pj = json.loads(ln)
+                _REL[pj['id']] = set(pj.get('anchors', {}).get('files', []))
+        except Exception:
+            pass
+    return _REL.get(prop, set())
 
 
 def run_kani(harnesses):
@@ -314,6 +328,54 @@ def cmd_check(args):
                 out_lines.append('VIOLATION property=%s replay=%s' % (prop, rp))
                 real.append(f)
 
+    # ---- bounded stand-in for changes OUTSIDE the contracts' reach (vx/fingerprint.py): a function of /repo/src that no
+    # unit of this property extracts (entry-point wrappers, Debug impls, helper leaves, ...) or an item outside function
+    # bodies differs from the pinned baseline.  The contracts cannot see it; the witness enumeration on the real crate can
+    # only ADD a violation with a concrete failing scenario (never an alarm by itself, never counted as proved).
+    uncovered = []
+    uncovered_runs = []
+    if not real and prop in WITNESS_FAMILIES and not os.environ.get('VX_NO_WITNESS') and G.REPO == '/repo':
+        try:
+            from . import fingerprint
+            uncovered = fingerprint.uncovered_changes(G.REPO, set(x.split(' [')[0] for x in functions), [u.name for u in cone])
+            rel = relevant_files(prop)
+            uncovered = [x for x in uncovered if x.split('::')[0] in rel or x.startswith('src/utils/') or x.startswith('src/collections/') or x.startswith('src/lib.rs')]
+        except Exception as e:
+            uncovered = []
+            uncovered_runs.append(dict(error='fingerprint failed: %r' % (e,)))
+        if uncovered:
+            from . import witness as W
+            found_one = False
+            for cfg_w in (('std',) if prop in STD_ONLY_PROPS else ('std', 'nostd')):
+                if found_one:
+                    break
+                need_co = any(f == 'co_stream' for f, _ in WITNESS_FAMILIES[prop])
+                exe, err = W.build(cfg_w, need_co)
+                if exe is None:
+                    uncovered_runs.append(dict(config=cfg_w, status='not run (witness build failed: %s)' % err[-200:]))
+                    continue
+                props_w = [prop] + (['C01'] if prop in W.LIVENESS_VIA_C01 else [])
+                for (fam, cont), prop_w in [(t, p_) for p_ in props_w for t in WITNESS_FAMILIES[prop]]:
+                    try:
+                        pw = subprocess.run([exe, '--family', fam, '--container', cont, '--prop', prop_w, '--budget', W.BUDGET, '--seed', str(seed or 1)],
+                                            capture_output=True, text=True, timeout=900)
+                        j = json.loads((pw.stdout.strip().split('\n') or [''])[-1])
+                    except Exception as e:
+                        uncovered_runs.append(dict(family=fam, container=cont, config=cfg_w, status='not run (%r)' % (e,)))
+                        continue
+                    uncovered_runs.append(dict(family=fam, container=cont, config=cfg_w, monitor=prop_w, found=bool(j.get('found')), explored=j.get('explored')))
+                    if j.get('found'):
+                        rp = os.path.join(replay_dir, '%s-uncovered-change-%s-%s-%s.json' % (prop, fam, cont, cfg_w))
+                        with open(rp, 'w') as fh:
+                            json.dump(dict(property=prop, obligation=['(no contract covers the changed code: %s)' % ', '.join(uncovered[:6])],
+                                           verifier='bounded stand-in: witness scenario enumeration on the real crate (/verif/witness)',
+                                           witness=dict(found=True, scenario=j.get('scenario'), observed=j.get('observed'), config=j.get('config'),
+                                                        monitor=prop_w, replay_cmd="%s --replay '%s' --prop %s --trace" % (exe, json.dumps(j.get('scenario')), prop_w))), fh, indent=1)
+                        out_lines.append('VIOLATION property=%s replay=%s' % (prop, rp))
+                        real.append(dict(unit='witness', cfg=cfg_w, fn=fam, tags=['BOUNDED_UNCOVERED_CHANGE'], message='witness found a violating scenario', line=0))
+                        found_one = True
+                        break
+
     # ---- bounded stand-in (thorough tier only): Kani on the real unsafe storage leaves ----
     bounded = []
     if tier == 'thorough' and prop in KANI_HARNESSES:
@@ -379,6 +441,8 @@ def cmd_check(args):
             functions_under_contract=sorted(set(functions)),
             by_backend=dict(verus_z3=n_ok, kani_cbmc_complete=0, kani_cbmc_bounded=sum(1 for b in bounded if b['status'] == 'SUCCESSFUL')),
             bounded_standins_for_undecided_units=standins,
+            changes_outside_contract_coverage=dict(changed=uncovered[:40], bounded_standin_runs=uncovered_runs[:60],
+                note='functions/items of /repo/src that differ from the pinned baseline and that no unit of this property extracts; only the bounded witness enumeration looked at them'),
             bounded_checks=[dict(harness=b['harness'], status=b['status'], bound=b['bound'], wall_s=b['wall_s']) for b in bounded],
             solver_time_s=round(solver_ms / 1000.0, 2),
             vacuity_twins=dict(expected_refuted=vac_expected, refuted=vac_refuted),
